@@ -520,8 +520,19 @@ impl<'a> Visitor for EmpVisitor<'a> {
             let rel = format!("{}.{}", mode, o);
             let res = match r {
                 Obs::Panic(m) => {
+                    let d = format!("{} (L={}, addr={}, {})", m, l, addr, tag);
                     if has("C15") {
-                        out.viol("C15", "panic", id, &rel, format!("{} (L={}, addr={}, {})", m, l, addr, tag));
+                        out.viol("C15", "panic", id, &rel, d.clone());
+                    }
+                    // emplacing content that fits and reading it back must not panic either
+                    if has("C03") && mode == "new" && o == "ok" {
+                        out.viol("C03", "panic", id, &rel, d.clone());
+                    }
+                    if has("C20") && mode == "default" && o == "ok" {
+                        out.viol("C20", "panic", id, &rel, d.clone());
+                    }
+                    if has("C17") && portable && o == "ok" {
+                        out.viol("C17", "panic", id, &rel, d);
                     }
                     continue;
                 }
@@ -838,11 +849,36 @@ impl<'a> Visitor for OpVisitor<'a> {
                 if !anyvalid {
                     let mask = arr(&exp["mask"]);
                     for (i, m) in mask.iter().enumerate() {
-                        if m.as_i64() == Some(-2) && post[i] != prebytes[i] {
+                        let mv = m.as_i64().unwrap_or(-1);
+                        if mv == -2 && post[i] != prebytes[i] {
                             out.viol("C14", "same", id, &rel, format!("byte {} outside the changed part went {} -> {} ({})", i, prebytes[i], post[i], tag));
                             break;
                         }
+                        // inside the changed node: a byte the format determines before and after the operation
+                        // with the same value belongs to something that was not to be changed (an element before
+                        // the one pushed, a neighbouring item's data)
+                        if mv >= 0 && pre[i] == mv && post[i] as i64 != mv {
+                            out.viol("C14", "kept", id, &rel, format!("byte {} is determined and unchanged by the operation ({}), but went to {} ({})", i, mv, post[i], tag));
+                            break;
+                        }
                     }
+                }
+            }
+            if has("C17") && case["portable"] == json!(true) && !anyvalid {
+                out.count("judged.C17");
+                // a portable value is a pure function of its content: every byte inside its extent is determined
+                let mask = arr(&exp["mask"]);
+                let full = arr(&case["exp"]["img"]);
+                let _ = full;
+                for (i, m) in mask.iter().enumerate() {
+                    let mv = m.as_i64().unwrap_or(-1);
+                    if mv >= 0 && post[i] as i64 != mv {
+                        out.viol("C17", "image", id, &rel, format!("byte {} is {} reference serialisation {} ({})", i, post[i], mv, tag));
+                        break;
+                    }
+                }
+                if obs.size != exp["size"].as_u64().unwrap_or(0) as usize {
+                    out.viol("C17", "size", id, &rel, format!("size() = {} reference {} ({})", obs.size, exp["size"], tag));
                 }
             }
             if (has("C11") && j11) || (has("C12") && j12) {
